@@ -182,8 +182,8 @@ class Livelock(Exception):
 
 
 class VirtualClock:
-    def __init__(self, resolution=0.0):
-        self.t = 1000.0
+    def __init__(self, resolution=0.0, epoch=1000.0):
+        self.t = float(epoch)            # time() counts seconds from 1970: about 1.8e9 today (float spacing 2.4e-7 s there)
         self.reads_since_step = 0
         self.steps_seen = 0
         self.resolution = resolution     # a clock that ticks (15.6 ms on some platforms) rather than flows
@@ -203,13 +203,20 @@ class VirtualClock:
 def timed_cases(draw, classes=("gibbs", "pca", "hmc", "metropolis")):
     cfg = draw(S.sampler_configs(classes=list(classes), max_d=3, bounds="never", temperature="never",
                                  target_kinds=("gauss",)))
-    cfg["cost_log"] = draw(st.floats(-6, 3))
+    cfg["cost_log"] = draw(st.floats(-5.5, 3))
     unit = draw(st.sampled_from(["minutes", "hours", "days", "mixed"]))
     cfg["budget_steps_log"] = draw(st.floats(0, 3.5))   # budget expressed in (approximate) steps
     cfg["unit"] = unit
     cfg["pre_steps"] = draw(st.sampled_from([0, 0, 30, 300, 2000]))   # samples already held by the chain before the timed run
     cfg["zero_budget"] = draw(st.integers(0, 11)) == 0                  # "every time budget": also none at all
     cfg["clock_res"] = draw(st.sampled_from([0.0, 0.0, 0.0, 1e-3, 0.015625]))   # resolution of the clock the library reads
+    # steps need not all cost the same: up to twice the first one's cost, rising, falling or alternating
+    cfg["drift"] = draw(st.sampled_from([1.0, 1.0, 1.3, 2.0]))
+    cfg["drift_kind"] = draw(st.sampled_from(["up", "down", "alternate"]))
+    cfg["drift_len"] = draw(st.sampled_from([3, 30, 1000]))
+    cfg["clock_epoch"] = draw(st.sampled_from([1000.0, 1.79e9]))                 # what the clock reads when the run starts
+    # "every time budget": also budgets far below one step / one second
+    cfg["tiny_budget_log"] = draw(st.floats(-9, -1)) if draw(st.integers(0, 7)) == 0 else None
     return cfg
 
 
@@ -218,21 +225,48 @@ def body_timed(case, ctx):
     import inference.mcmc.utilities as util
 
     ch, tgt, info = S.build(case, record=False)
-    clock = VirtualClock(case.get("clock_res", 0.0))
-    tgt.clock = clock
-    tgt.cost = 10.0 ** case["cost_log"]
-    # evaluations per step (measured on this chain, before the timed run)
-    n0 = tgt.n_calls
-    with np.errstate(all="ignore"):
-        if case["cls"] == "ensemble":
+    clock = VirtualClock(case.get("clock_res", 0.0), case.get("clock_epoch", 1000.0))
+    cost0 = 10.0 ** case["cost_log"]
+    drift, drift_kind, drift_len = float(case.get("drift", 1.0)), case.get("drift_kind", "up"), int(case.get("drift_len", 10))
+    # the last group of a run may hold a (virtual) second or two of steps: keep that to a number of real steps that a case can afford
+    # (4e3 for HMC, whose steps are trajectories, 5e4 otherwise) by raising the cost of the cheapest steps
+    cost0 = max(cost0, (2.0 if case.get("clock_res") else 1.0) * drift / (4e3 if case["cls"] == "hmc" else 5e4))
+    if case["cls"] == "ensemble" or not hasattr(ch, "take_step"):
+        # (no per-step entry point to meter: the clock moves with the evaluations of the target)
+        tgt.clock = clock
+        tgt.cost = cost0
+        n0 = tgt.n_calls
+        with np.errstate(all="ignore"):
             ch.advance(1)
-            per_step = max((tgt.n_calls - n0) / S.walkers(case), 1.0) * tgt.cost   # per stored sample
-        else:
-            for _ in range(3):
-                ch.take_step()
-            per_step = max((tgt.n_calls - n0) / 3.0, 1.0) * tgt.cost
+        per_step = max((tgt.n_calls - n0) / S.walkers(case), 1.0) * tgt.cost   # per stored sample
+        c_min = c_max = per_step
+    else:
+        # the cost per step is the quantity the property quantifies over: every step moves the clock by a stated amount, which may
+        # drift by the factor `drift` over the run (steps get slower as a chain leaves a cheap region, or faster) - not by a random
+        # amount per evaluation, which would make "one second's worth of steps" a matter of luck
+        real_step = ch.take_step
+        k_step = [0]
+
+        def cost_of(k):
+            w = min(k / float(drift_len), 1.0)
+            if drift_kind == "down":
+                w = 1.0 - w
+            elif drift_kind == "alternate":
+                w = float(k % 2)
+            return cost0 * (1.0 + (drift - 1.0) * w)
+
+        def metered_step():
+            real_step()
+            clock.advance(cost_of(k_step[0]))
+            k_step[0] += 1
+
+        ch.take_step = metered_step
+        per_step = cost0
+        c_min, c_max = cost0, cost0 * drift
     budget = max(per_step * 10.0 ** case["budget_steps_log"], 0.5)
     budget = min(budget, 36000.0)
+    if case.get("tiny_budget_log") is not None:
+        budget = 10.0 ** case["tiny_budget_log"]
     if case.get("zero_budget"):
         budget = 0.0
     # express the budget through the documented arguments
@@ -246,11 +280,9 @@ def body_timed(case, ctx):
         kw = {"minutes": budget / 180.0, "hours": budget / 10800.0, "days": budget / 259200.0}
     steps_budget = budget / per_step
     if case.get("pre_steps") and case["cls"] != "ensemble":
-        tgt.clock = None
         with np.errstate(all="ignore"):
             for _ in range(case["pre_steps"]):
-                ch.take_step()
-        tgt.clock = clock
+                real_step()                 # (not metered: these happened before the timed run)
     if steps_budget > 3e4:
         raise Inconclusive("budget too many steps for a quick case")
     start_len = ch.chain_length
@@ -273,7 +305,7 @@ def body_timed(case, ctx):
     elapsed = clock.t - t_start
     if budget == 0.0:
         # nothing to use up: the run must simply return (at most the progress batch in flight, as below), lengths consistent
-        if elapsed > 3 * (20 * per_step + 1.0):
+        if taken > 0:
             raise Violation(f"timed-overshoot:{cls}", f"zero budget, ran {elapsed:.4g} s ({taken} steps)")
         s_, p_ = readouts(ch)
         if s_.shape[0] != ch.chain_length or p_.shape[0] != ch.chain_length:
@@ -282,12 +314,20 @@ def body_timed(case, ctx):
         return
     if taken < 1:
         raise Violation(f"timed-no-step:{cls}", "run_for returned without taking a step")
-    if elapsed < budget * (1 - 1e-9) - clock.resolution:
+    if elapsed < budget * (1 - 1e-9) - clock.resolution - 4 * np.spacing(clock.t):
         raise Violation(f"timed-early:{cls}", f"run_for returned after {elapsed:.6g} s of a {budget:.6g} s budget ({taken} steps)")
-    # "and then stops": the run may overshoot by the progress batch in flight when the deadline passes - at most
-    # max(20 steps, about one second's worth of steps) - judged with the mean step cost actually observed in the run
+    # "and then stops": the clock is read between groups of steps sized for about one progress message per second, so the run may
+    # overshoot by the group in flight when the deadline passes - about one second's worth of steps, or one step if a step is slower
+    # than that - judged with the mean step cost actually observed in the run.  (An earlier version of this check allowed the
+    # implementation's hard-wired first group of 20 steps whatever a step costs: 20 minutes of overshoot on a one-minute budget
+    # with one-minute steps is not "then stops".)
+    # The group is sized as (steps so far) / (elapsed time read so far): with steps costing between c_min and c_max it lasts at
+    # most c_max / c_min seconds, twice that if the clock ticks (a reading is up to one tick behind: at the first tick seen the
+    # measured rate may be double the true one), and never less than one step.  Before a ticking clock has moved at all the group
+    # doubles, which adds at most the time already spent inside the first tick.
     c = elapsed / taken
-    allowance = 3 * (max(20 * c, 1.0) + c) + 0.25 * budget + 2 * clock.resolution
+    q = 2.0 if clock.resolution else 1.0
+    allowance = 1.05 * max(c_max, q * c_max / c_min) + c_max + 4 * clock.resolution + 8 * np.spacing(clock.t)
     if elapsed - budget > allowance:
         raise Violation(f"timed-overshoot:{cls}", f"budget {budget:.4g} s, ran {elapsed:.4g} s ({taken} steps of ~{c:.3g} s)")
     s, p = readouts(ch)
@@ -312,7 +352,9 @@ def timed_pt_cases(draw):
             "cost_log": draw(st.one_of(st.floats(-3, 2), st.sampled_from([-0.5, 0.0, 0.5, 1.0]))),
             "swap_interval": draw(st.sampled_from([1, 2, 3, 10])),
             "cycles_log": draw(st.floats(-0.7, 2.3)), "unit": draw(st.sampled_from(["minutes", "hours", "mixed"])),
-            "clock_res": draw(st.sampled_from([0.0, 0.0, 0.0, 0.015625]))}
+            "clock_res": draw(st.sampled_from([0.0, 0.0, 0.0, 0.015625])), "clock_epoch": draw(st.sampled_from([1000.0, 1.79e9])),
+            # "every time budget": none at all, and budgets far below one cycle
+            "zero_budget": draw(st.integers(0, 9)) == 0, "tiny_budget_log": draw(st.floats(-9, -2)) if draw(st.integers(0, 7)) == 0 else None}
 
 
 def body_timed_pt(case, ctx):
@@ -330,9 +372,13 @@ def body_timed_pt(case, ctx):
     si = case["swap_interval"]
     cycle = cost * si
     budget = max(cycle * 10.0 ** case["cycles_log"], 0.05)
+    if case.get("tiny_budget_log") is not None:
+        budget = 10.0 ** case["tiny_budget_log"]
+    if case.get("zero_budget"):
+        budget = 0.0
     kw = {"minutes": budget / 60.0} if case["unit"] == "minutes" else ({"hours": budget / 3600.0} if case["unit"] == "hours" else
                                                                        {"minutes": budget / 120.0, "hours": budget / 7200.0})
-    clock = VirtualClock(case.get("clock_res", 0.0))
+    clock = VirtualClock(case.get("clock_res", 0.0), case.get("clock_epoch", 1000.0))
     with warnings.catch_warnings():
         warnings.simplefilter("ignore")
         pt = ParallelTempering(chains=chains)
@@ -367,9 +413,16 @@ def body_timed_pt(case, ctx):
             p.join(timeout=2)
             if p.is_alive():
                 p.terminate()
+    if budget == 0.0:
+        # nothing to use up: no chain moves
+        lens = [int(c.chain_length) for c in out]
+        if taken[0] or any(n != 1 for n in lens):
+            raise Violation("timed-overshoot:tempering", f"zero budget, {taken[0]} steps were requested of every chain (swap_interval {si}), chain lengths {lens}")
+        ctx.event("zero-budget")
+        return
     if taken[0] < 1:
         raise Violation("timed-no-step:tempering", "run_for returned without taking a step")
-    if elapsed < budget * (1 - 1e-9) - clock.resolution:
+    if elapsed < budget * (1 - 1e-9) - clock.resolution - 4 * np.spacing(clock.t):
         raise Violation("timed-early:tempering", f"run_for returned after {elapsed:.6g} s of a {budget:.6g} s budget ({taken[0]} steps of {cost:.3g} s, swap_interval {si})")
     # "and then stops": at most the progress group in flight (cycles worth about two seconds, or one cycle if slower) beyond the budget
     # (cycles faster than the clock's tick are grouped as if they took 10 ms: up to 200 of them per group)
@@ -411,7 +464,7 @@ SUBCHECKS = [
         rule=">= 2 chains of different classes in the pool"),
     Sub("timed-ensemble", lambda t: timed_cases(classes=("ensemble",)), body_timed, quick=60, thorough=1000, shards_quick=2, shards_thorough=8,
         rule="step cost > 1 virtual second with a budget worth > 20 steps"),
-    Sub("timed", lambda t: timed_cases(), body_timed, quick=600, thorough=20000, shards_quick=8, shards_thorough=16,
+    Sub("timed", lambda t: timed_cases(), body_timed, quick=400, thorough=8000, shards_quick=16, shards_thorough=16,
         rule="step cost > 1 virtual second with a budget worth > 20 steps"),
     Sub("tempering-counts", lambda t: _pt_advance_cases(), _pt_advance_body, quick=48, thorough=1500, shards_quick=16, shards_thorough=16, weight=60,
         rule="N >= 2 and an advance whose n is not a multiple of swap_interval"),
